@@ -1,6 +1,6 @@
 //! Instance-level events (C03-C06, C08-C15).
 use crate::exec::guarded;
-use crate::num::{approx_rational, from_f64};
+use crate::num::{approx_rational, from_f64, to_f64};
 use crate::shape::*;
 use ommx::v1::{self, Function};
 use ommx::{Evaluate, Message};
@@ -400,16 +400,95 @@ pub fn apply_chain_encode(ev: &Value) -> Vec<Value> {
     outs
 }
 
+/// integer box used to complete arguments: the declared bound clipped to a small window
+fn auto_box(v: &Value) -> (i64, i64) {
+    let b = v["bound"].as_array().unwrap().first();
+    let (mut lo, mut hi) = match b {
+        Some(b) => (to_f64(&b["lo"]), to_f64(&b["hi"])),
+        None if v["kind"] == "binary" => (0.0, 1.0),
+        None => (f64::NEG_INFINITY, f64::INFINITY),
+    };
+    if !lo.is_finite() && !hi.is_finite() {
+        lo = 0.0;
+        hi = 0.0;
+    } else if !lo.is_finite() {
+        lo = hi;
+    } else if !hi.is_finite() {
+        hi = lo;
+    }
+    let (lo, hi) = (lo.ceil() as i64, hi.floor() as i64);
+    (lo, hi.max(lo))
+}
+/// lattice points over the free integer/binary variables of the instance (continuous, fixed and dependent variables
+/// get one in-bound value); None if there are more than 400
+fn auto_points(inst: &Value) -> Option<Value> {
+    let deps: BTreeSet<u64> = inst["deps"].as_array().unwrap().iter().map(|d| d[0].as_u64().unwrap()).collect();
+    let mut points: Vec<Vec<Value>> = vec![vec![]];
+    for v in inst["vars"].as_array().unwrap() {
+        let id = v["id"].as_u64().unwrap();
+        if deps.contains(&id) {
+            continue;
+        }
+        let (lo, hi) = auto_box(v);
+        let vals: Vec<Value> = if let Some(f) = v["fixed"].as_array().unwrap().first() {
+            vec![f.clone()]
+        } else if v["kind"] == "continuous" || hi - lo > 8 {
+            vec![json!([lo, 1])]
+        } else {
+            (lo..=hi).map(|x| json!([x, 1])).collect()
+        };
+        let mut next = Vec::with_capacity(points.len() * vals.len());
+        for p in &points {
+            for x in &vals {
+                let mut p2 = p.clone();
+                p2.push(json!([id, x]));
+                next.push(p2);
+            }
+        }
+        points = next;
+        if points.len() > 400 {
+            return None;
+        }
+    }
+    Some(Value::Array(points.into_iter().map(Value::Array).collect()))
+}
+
 /// `seq`: in {inst, ops:[{op, ...args}]} -> one event per op with pre (`in.inst`) and post (`out.post`)
 pub fn apply_seq(ev: &Value) -> Vec<Value> {
     let inp = &ev["in"];
     let case = ev["case"].clone();
     let mut cur = inp["inst"].clone();
     let mut outs = Vec::new();
+    let ids0: BTreeSet<u64> = cur["vars"].as_array().unwrap().iter().map(|v| v["id"].as_u64().unwrap()).collect();
     for (k, op) in inp["ops"].as_array().unwrap().iter().enumerate() {
         let mut one = json!({"ev": op["op"], "case": case, "step": k + 1, "src": ev["src"], "in": op});
         one["in"]["inst"] = cur.clone();
         one["in"].as_object_mut().unwrap().remove("op");
+        // arguments the driver cannot know in advance (they depend on variables earlier steps created) are completed
+        // from the CURRENT instance; the completed arguments are what is logged and judged
+        if let Some(fill) = op.get("fill").and_then(|f| f.as_u64()) {
+            let mut st = op["st"].as_array().unwrap().clone();
+            let mut j = 0u32;
+            for v in cur["vars"].as_array().unwrap() {
+                let id = v["id"].as_u64().unwrap();
+                if ids0.contains(&id) || !v["fixed"].as_array().unwrap().is_empty() {
+                    continue;
+                }
+                let (lo, hi) = auto_box(v);
+                let w = (hi - lo + 1).max(1) as u64;
+                let x = lo + (fill.rotate_right(3 * j) % w) as i64;
+                st.push(json!([id, [x, 1]]));
+                j += 1;
+            }
+            one["in"]["st"] = Value::Array(st);
+            one["in"].as_object_mut().unwrap().remove("fill");
+        }
+        if op.get("points").and_then(|p| p.as_str()) == Some("auto") {
+            match auto_points(&cur) {
+                Some(p) => one["in"]["points"] = p,
+                None => continue, // the box is too large to enumerate: the step is skipped
+            }
+        }
         let r = crate::exec::apply(&one);
         for e in r {
             if let Some(p) = e["out"].get("post") {
